@@ -157,10 +157,46 @@ def check_case(res, T, v, ber_mode, bt=None):
         res.sample(C.sample_of(T, v, der_hex=ref_der.hex()[:200]))
 
 
+def check_realbase(res, fixed):
+    """DER and CER write base 2 whatever base the REAL type asks for (X.690 11.3.1)."""
+    base, m, e, wrap = fixed
+    if wrap == 'explicit':
+        return      # CER: zone of the pinned stray end-of-octets finding
+    val, schema, pick = C.realbase_objects(base, m, e, wrap)
+    T = {'bare': ('real',), 'implicit': ('tag', 'I', 'C', 40, ('real',)),
+         'in-seq': ('seq', (('n', ('int',), 'req', None), ('r', ('real',), 'req', None))),
+         'in-seqof': ('seqof', ('real',))}[wrap]
+    r = ('r', m, 2, e)
+    v = {'bare': r, 'implicit': r, 'in-seq': {'n': 7, 'r': r}, 'in-seqof': [r, r]}[wrap]
+    for codec, enc, ref in (('DER', der_encoder.encode, R.der), ('CER', cer_encoder.encode, R.cer)):
+        case = ('c03-realbase', base, m, e, wrap, codec)
+        feats = {'type:real', 'real-base2', 'real-binEncBase:%d' % base, 'wrap:' + wrap, 'codec:' + codec}
+        res.case(U.case_hash(case), True)
+        res.see('realbase-cases')
+        try:
+            got = enc(val)
+        except Exception as ex:
+            c = H.classify_exception(ex)
+            res.witness('%s:encode-raised:%s' % (codec.lower(), c if not isinstance(c, tuple) else 'leak:' + c[1]), feats, case, ex)
+            continue
+        want = ref(T, v)
+        if got != want:
+            res.witness('%s-bytes-differ:real' % codec.lower(), feats, case, 'got %s want %s' % (got.hex()[:200], want.hex()[:200]))
+        else:
+            res.see('realbase-canonical-ok')
+
+
 def run_shard(shard, tier, seed):
     res = H.Result(ID)
     rng = C.rng_for(seed, ID, shard['shard'])
     for i in range(shard['n']):
+        if i % 8 == 0:
+            try:
+                check_realbase(res, C.realbase_case(rng))
+            except Exception:
+                res.see('harness:error')
+                if len(res.inconclusive) < 3:
+                    res.inconclusive.append('harness error: ' + H.fmt_exc())
         T, v = C.gen_case(rng, tier, big_strings=rng.random() < 0.12)
         mode = (rng.random() < 0.5, rng.choice([0, 0, 1, 2, 3, 7, 1000, rng.randint(4, 40)]))
         try:
@@ -176,6 +212,10 @@ def replay(case):
     if case[0] == 'enc':
         return C.replay_enc(ID, case)
     res = H.Result(ID)
+    if case[0] == 'c03-realbase':
+        check_realbase(res, tuple(case[1:5]))
+        res.witnesses = [w for w in res.witnesses if "'%s'" % case[5] in w['case']]
+        return res
     _, T, v, codec, mode = case
     check_case(res, T, v, tuple(mode))
     res.witnesses = [w for w in res.witnesses if "'%s'" % codec in w['case']]
